@@ -89,6 +89,7 @@ type recorder struct {
 	errs     []M
 	scripted error
 	rw       http.ResponseWriter
+	stale    int    // calls of an error responder that was replaced before the handler was built
 	preset   string // Content-Type an upstream middleware puts on every response ("" = none)
 }
 
@@ -224,7 +225,8 @@ func build(d M) (*built, error) {
 	default:
 		api.RegisterAuth("basic", security.BasicAuthRealm(realm, check))
 	}
-	api.ServeError = func(rw http.ResponseWriter, r *http.Request, err error) {
+	// the API's error responder (a public field of the API) and an earlier one it may replace
+	responder := func(rw http.ResponseWriter, r *http.Request, err error) {
 		if cur != nil {
 			code := 0
 			var ae errors.Error
@@ -236,7 +238,25 @@ func build(d M) (*built, error) {
 		}
 		errors.ServeError(rw, r, err)
 	}
+	replaced := func(rw http.ResponseWriter, r *http.Request, err error) {
+		if cur != nil {
+			cur.stale++
+		}
+		errors.ServeError(rw, r, err)
+	}
+	// build order: set before NewContext | after NewContext (before the handler is built) | an earlier responder
+	// set before NewContext is replaced after it
+	switch drv.Str(d["serveerr_order"]) {
+	case "after":
+	case "replace":
+		api.ServeError = replaced
+	default:
+		api.ServeError = responder
+	}
 	b.ctx = middleware.NewContext(ld, api, nil)
+	if o := drv.Str(d["serveerr_order"]); o == "after" || o == "replace" {
+		api.ServeError = responder
+	}
 	// an upstream Builder middleware that installs site-wide response headers, possibly a Content-Type
 	b.handler = b.ctx.RoutesHandler(func(next http.Handler) http.Handler {
 		return http.HandlerFunc(func(rw http.ResponseWriter, r *http.Request) {
@@ -403,7 +423,7 @@ func execute(c *drv.Ctx, d M) bool {
 			body = ""
 		}
 		c.W.Event("respond", M{"entry": rm["entry"], "method": rm["method"], "target": rm["target"], "creds": rm["creds"],
-			"keycreds": rm["keycreds"], "preset": drv.Str(rm["preset"]), "declared": drv.Map(d["declared"])[drv.Str(rm["method"])],
+			"keycreds": rm["keycreds"], "preset": drv.Str(rm["preset"]), "stale_responder_calls": rec.stale, "declared": drv.Map(d["declared"])[drv.Str(rm["method"])],
 			"accept": rm["accept"], "outcome": out, "status": rw.Code, "ctype": rw.Header().Get("Content-Type"),
 			"produced": nn(rec.produced), "given": given, "body": asciiOnly(body), "errs": nn(rec.errs),
 			"wwwauth": asciiOnly(rw.Header().Get("WWW-Authenticate")), "panic": panicked})
@@ -525,7 +545,8 @@ func descriptor(declaredProduces, routeOrder []entry, def entry, registry []stri
 		rp = append(rp, e.JSON())
 	}
 	return M{"produces": ps, "route_produces": rp, "default": def.JSON(), "registry": registry, "declared": declared,
-		"where": []string{"op", "global"}[idx%2], "ids": (idx/2)%2 == 0, "secure": "none", "realm": "", "defrealm": []string{"API", "First"}[(idx/3)%2], "authkind": 0, "reqs": []M{}}
+		"where": []string{"op", "global"}[idx%2], "ids": (idx/2)%2 == 0, "secure": "none", "realm": "", "defrealm": []string{"API", "First"}[(idx/3)%2], "authkind": 0, "reqs": []M{},
+		"serveerr_order": []string{"before", "after", "replace"}[(idx/5)%3]}
 }
 
 var reqCount int
@@ -708,6 +729,7 @@ func generate(c *drv.Ctx) {
 			}
 		}
 		d := descriptor(set, routeSet, def, reg, declaredFor(c.Rng.Intn(len(declaredSets))), c.Rng.Intn(4))
+		d["serveerr_order"] = []string{"before", "after", "replace"}[c.Rng.Intn(3)]
 		if c.Rng.Intn(3) == 0 {
 			d["secure"] = []string{"basic", "basic-or-key", "key-or-basic", "basic-and-key"}[c.Rng.Intn(4)]
 			d["realm"], d["authkind"] = []string{"", "my realm", "x"}[c.Rng.Intn(3)], c.Rng.Intn(3)
